@@ -162,8 +162,7 @@ class Ctx:
             workers = 1 if mode != "bfs" else min(8, NCPU)
         meta = os.path.join(d, "meta")
         cmd = ["java", "-XX:+UseParallelGC", "-Xss64m"]
-        if heap:
-            cmd.append("-Xmx" + heap)
+        cmd.append("-Xmx" + (heap or os.environ.get("VERIF_TLC_HEAP", "6g")))
         if view_queue:
             cmd.append("-Dtlc2.tool.queue.IStateQueue=StateDeque")
         cmd += ["-cp", TLA_CP, "tlc2.TLC", "-metadir", meta, "-workers", str(workers),
